@@ -113,10 +113,32 @@ QUERIES = {"source": q_source, "ast": q_ast, "severity": q_severity, "findings":
            "source_cli": q_source_cli, "trace_cli": q_trace_cli, "findings_each": q_findings_each, "severity_ml": q_severity_ml}
 
 
-def ask(p, q):
+class _DoesNotReturn(BaseException):
+    pass
+
+
+def _alarm(*_a):
+    raise _DoesNotReturn()
+
+
+def ask(p, q, limit=20):
+    """a query that does not come back within `limit` seconds is an answer too ("exc:DoesNotReturn"): the checks stay finite
+    on a tree where a view loops (found on the unchanged tree: Interpreter.unused_variables on a self-referential argument)"""
+    import signal
+    import threading
+    guard = threading.current_thread() is threading.main_thread()
+    if guard:
+        old = signal.signal(signal.SIGALRM, _alarm)
+        signal.setitimer(signal.ITIMER_REAL, limit)
     try:
         return QUERIES[q](p)
+    except _DoesNotReturn:
+        return "exc:DoesNotReturn"
     except RecursionError:
         return "exc:RecursionError"
     except Exception as e:  # noqa: BLE001 - a deterministic failure is an answer too
         return "exc:" + type(e).__name__
+    finally:
+        if guard:
+            signal.setitimer(signal.ITIMER_REAL, 0)
+            signal.signal(signal.SIGALRM, old)
